@@ -128,7 +128,7 @@ CLAIMED = {
         'its monkeypatched os/pickle/shutil proxies; threads stand for processes.',
    ref='DESIGN.md §4 C18'),
  'C09': dict(
-   technique='Coq proof (linear arithmetic for all counts) over accessor expressions regenerated from gi*info.c + correspondence: full API walk and g-ir-generate output against the compiled GIR',
+   technique='Coq proof (linear arithmetic for all counts) over accessor expressions regenerated from gi*info.c, over the type accessors of gitypeinfo.c against the regenerated blob layout and over the array blob model of C06K + correspondence: full API walk and g-ir-generate output against the compiled GIR, typelibs swept across the 64 KiB boundary',
    text='Theorems (Coq, axiom-free): the 23 closed-form offset expressions of giobjectinfo.c, giinterfaceinfo.c, '
         'gistructinfo.c, giunioninfo.c, gienuminfo.c are translated from the C source on every run; for ALL counts of '
         'interfaces/prerequisites (odd or even), fields, embedded callbacks, properties, methods, signals, vfuncs, '
@@ -146,7 +146,7 @@ CLAIMED = {
         'girparser.c, reviewed case by case); types in g-ir-generate output not compared.',
    ref='DESIGN.md §4 C09'),
  'C06': dict(
-   technique='Coq proof of the blob codec over a layout regenerated from gitypelib-internal.h + translation validation of whole typelibs with an independent decoder written in Coq',
+   technique='Coq proof of the blob codec over a layout regenerated from gitypelib-internal.h and of the soundness of the key under which serialize_type shares the blobs of C arrays (model tied to the real function by a C driver) + translation validation of whole typelibs with an independent decoder written in Coq',
    text='Theorems (Coq, axiom-free): reading a member after writing it gives the value and no other member changes; '
         'for ANY list of non-overlapping members and values fitting their widths, decoding the encoded blob returns every '
         'value (C06_blob_roundtrip: every blob kind at once; the format\'s 16-bit limits are the width hypotheses); the '
@@ -247,7 +247,7 @@ CLAIMED = {
         'pointer and fundamental types, unknown interface names (two unresolved interface types make the writer\'s sort raise).',
    ref='DESIGN.md §4 C12'),
  'C15': dict(
-   technique='Coq proof of the writer/reader vocabulary contract on lists regenerated from girwriter.py and girparser.c, and of the attribute round trip (C01 writer model composed with a model of the reader) + translation validation through the real scanner, g-ir-compiler, g_typelib_validate and repository API',
+   technique='Coq proof of the writer/reader vocabulary contract on lists regenerated from girwriter.py and girparser.c, and of the attribute round trips (C01 writer model and C07 type writer model composed with models of the compiler's reader) + translation validation through the real scanner, g-ir-compiler, g_typelib_validate and repository API',
    text='Theorems (Coq, axiom-free): every element name the GIR writer can emit (extracted from the syntax tree of giscanner/girwriter.py, '
         'fail-closed) is among the names girepository/girparser.c tests element_name against or starts with "c:" '
         '(C15_vocabulary_contract, finite); for EVERY parameter slot of the C01 model, what the writer emits is read back by the '
